@@ -20,12 +20,21 @@ import time
 ROOT = os.path.dirname(os.path.dirname(os.path.abspath(__file__)))
 
 
-def sh(cmd, timeout=1200, **kw):
+def sh(cmd, timeout=900, **kw):
+    """Run a shell command in its own process group; on timeout the whole group is killed (a mutant may loop forever)."""
+    import signal
+
+    proc = subprocess.Popen(cmd, shell=True, stdout=subprocess.PIPE, stderr=subprocess.STDOUT, text=True, start_new_session=True, **kw)
     try:
-        return subprocess.run(cmd, shell=True, stdout=subprocess.PIPE, stderr=subprocess.STDOUT, text=True, timeout=timeout, **kw)
-    except subprocess.TimeoutExpired as exc:
-        subprocess.run("pkill -f 'run.py C'; pkill -f multiprocessing.spawn", shell=True)
-        return subprocess.CompletedProcess(cmd, 124, stdout="TIMEOUT\n%s" % ((exc.stdout or b"")[-400:],))
+        out, _ = proc.communicate(timeout=timeout)
+        return subprocess.CompletedProcess(cmd, proc.returncode, stdout=out)
+    except subprocess.TimeoutExpired:
+        try:
+            os.killpg(proc.pid, signal.SIGKILL)
+        except OSError:
+            pass
+        out, _ = proc.communicate()
+        return subprocess.CompletedProcess(cmd, 124, stdout="TIMEOUT after %ss\n%s" % (timeout, (out or "")[-400:]))
 
 
 def main():
